@@ -55,6 +55,9 @@ class Ar:
         self.eps = eps
         self.margins = []
         self.path = []
+        self.extra = 0.0          # first-order error bound propagated through square roots of differences
+        self.force_near = False   # a radicand is within its rounding error of zero: branch undecidable in floats
+        self.out_scale = 1.0      # factor between the square root and the reported value (1/speed, 1/v.v)
 
     def P(self, v):
         if self.eps and math.isfinite(v):
@@ -86,6 +89,20 @@ def msqrt(A, v):
     return A.P(math.sqrt(v))
 
 
+def msqrt_diff(A, v, scale):
+    """square root of a difference whose terms have magnitude `scale`: the difference carries an absolute rounding
+    error of about REL * scale (at the 2^-40 level used for tolerances); through the square root this becomes
+    REL * scale / (2 sqrt v), unbounded as v -> 0 (grazing contact, tangent path).  Within that error of zero the sign
+    of v, i.e. the branch, is undecidable in floats: near-boundary."""
+    if not A.eps:
+        tolv = REL * abs(scale)
+        if abs(v) <= 4.0 * tolv:
+            A.force_near = True
+        elif v > 0:
+            A.extra = max(A.extra, abs(A.out_scale) * tolv / (2.0 * math.sqrt(v)))
+    return msqrt(A, v)
+
+
 def mpow(A, b, e):
     if b < 0 or (b == 0 and e <= 0):
         raise Domain("power of non-positive base")
@@ -107,7 +124,7 @@ def m_ip_disp(A, p, pref, c1, c2, dE, x, q):
         U0 = m_ip_pot(A, p, pref, c, q + x * x)
         if A.lt(dE, A.P(Umax - U0), "climb"):
             n2 = mpow(A, c * pref / A.P(U0 + dE), 2 / p)
-            return x - msqrt(A, A.P(n2 - q))
+            return x - msqrt_diff(A, A.P(n2 - q), n2 + q)
         return INF
     A.path.append("att")
     d0, x1 = (x, 0.0) if x > 0 else (0.0, x)
@@ -116,7 +133,7 @@ def m_ip_disp(A, p, pref, c1, c2, dE, x, q):
     if A.le(0.0, A.P(U0 + dE), "escape"):
         return INF
     n2 = mpow(A, c * pref / A.P(U0 + dE), 2 / p)
-    return d0 + x1 + msqrt(A, A.P(n2 - q))
+    return d0 + x1 + msqrt_diff(A, A.P(n2 - q), n2 + q)
 
 
 def m_ip_der(A, p, pref, c1, c2, x, q):
@@ -167,12 +184,12 @@ def m_mh_fo(A, m, U0, dE, x, q):
     rn = m.inv_out(A, A.P(U0 + dE))
     if rn == INF:
         return INF
-    return x + msqrt(A, A.P(rn * rn - q))
+    return x + msqrt_diff(A, A.P(rn * rn - q), rn * rn + q)
 
 
 def m_mh_fi(A, m, dE, x, q):
     A.path.append("FI")
-    d = x + msqrt(A, A.P(m.r0sq - q))
+    d = x + msqrt_diff(A, A.P(m.r0sq - q), m.r0sq + q)
     x1 = x - d
     U1 = m.pot(A, q + x1 * x1)
     return d + m_mh_fo(A, m, U1, dE, x1, q)
@@ -184,14 +201,14 @@ def m_mh_bi(A, m, U0, dE, x, q):
     diff = A.P(Umax - U0)
     if A.lt(dE, diff, "inner"):
         rn = m.inv_in(A, A.P(U0 + dE))
-        return x - msqrt(A, A.P(rn * rn - q))
+        return x - msqrt_diff(A, A.P(rn * rn - q), rn * rn + q)
     return x + m_mh_fi(A, m, A.P(dE - diff), 0.0, q)
 
 
 def m_mh_bo(A, m, dE, x, q):
     A.path.append("BO")
     if A.le(0.0, m.r0sq - q, "enters"):
-        d = x - msqrt(A, m.r0sq - q)
+        d = x - msqrt_diff(A, m.r0sq - q, m.r0sq + q)
         x1 = x - d
         U1 = m.pot(A, q + x1 * x1)
         return d + m_mh_bi(A, m, U1, dE, x1, q)
@@ -217,27 +234,37 @@ def m_mh_der(A, m, x, q):
 
 
 def m_hs(A, d2, v, s):
-    vv = sum(t * t for t in v)
-    ss = sum(t * t for t in s)
-    vs = sum(a * b for a, b in zip(v, s))
+    vv = A.P(sum(t * t for t in v))
+    ss = A.P(sum(t * t for t in s))
+    vs = A.P(sum(a * b for a, b in zip(v, s)))
+    d2 = A.P(d2)
     D = A.P(A.P(vs * vs) - A.P(vv * A.P(ss - d2)))
+    scale = vs * vs + vv * (ss + d2)
+    A.out_scale = 1.0 / vv
+    if not A.eps and abs(D) <= 4.0 * REL * scale:
+        A.force_near = True          # grazing: hit or miss undecidable
     okD = A.le(0.0, D, "disc")
     okv = A.le(0.0, vs, "approach")
     if okD and okv:
-        return A.P(vs - msqrt(A, D)) / vv
+        return A.P(vs - msqrt_diff(A, D, scale)) / vv
     return INF
 
 
 def m_hd(A, mn2, mx2, v, s):
-    vv = sum(t * t for t in v)
-    ss = sum(t * t for t in s)
-    vs = sum(a * b for a, b in zip(v, s))
+    vv = A.P(sum(t * t for t in v))
+    ss = A.P(sum(t * t for t in s))
+    vs = A.P(sum(a * b for a, b in zip(v, s)))
+    mn2, mx2 = A.P(mn2), A.P(mx2)
+    A.out_scale = 1.0 / vv
     if A.le(0.0, vs, "approach"):
         Dmin = A.P(A.P(vs * vs) - A.P(vv * A.P(ss - mn2)))
+        scale = vs * vs + vv * (ss + mn2)
+        if not A.eps and abs(Dmin) <= 4.0 * REL * scale:
+            A.force_near = True      # grazing the inner sphere
         if A.le(0.0, Dmin, "hitsinner"):
-            return A.P(vs - msqrt(A, Dmin)) / vv
+            return A.P(vs - msqrt_diff(A, Dmin, scale)) / vv
     Dmax = A.P(A.P(vs * vs) - A.P(vv * A.P(ss - mx2)))
-    return A.P(vs + msqrt(A, Dmax)) / vv
+    return A.P(vs + msqrt_diff(A, Dmax, vs * vs + vv * (ss + mx2))) / vv
 
 
 def m_ipc_disp(A, kc, dE, x, q, L):
@@ -263,7 +290,7 @@ def m_ipc_disp(A, kc, dE, x, q, L):
                 disp += x + h
                 x, U0 = h, Uh
         nn = kc / A.P(U0 + dE)
-        return disp + (x - msqrt(A, A.P(nn * nn - q))), laps
+        return disp + (x - msqrt_diff(A, A.P(nn * nn - q), nn * nn + q)), laps
     A.path.append("att")
     if x > 0:
         A.path.append("behind")
@@ -275,7 +302,7 @@ def m_ipc_disp(A, kc, dE, x, q, L):
             disp += x + L
             x, U0 = 0.0, Uz
     nn = kc / A.P(U0 + dE)
-    return disp + (x + msqrt(A, A.P(nn * nn - q))), laps
+    return disp + (x + msqrt_diff(A, A.P(nn * nn - q), nn * nn + q)), laps
 
 
 def evaluate(fn, rng, nrep=6):
@@ -289,7 +316,7 @@ def evaluate(fn, rng, nrep=6):
     if isinstance(v0, tuple):
         v0, aux = v0
     spread = 0.0
-    near = bool(A0.margins) and min(A0.margins) < NEAR
+    near = (bool(A0.margins) and min(A0.margins) < NEAR) or A0.force_near
     for _ in range(nrep):
         A = Ar(rng, REL)
         try:
@@ -309,10 +336,10 @@ def evaluate(fn, rng, nrep=6):
         cond = 1.0
     else:
         base = REL * abs(v0)
-        tol = max(base, 4.0 * spread, 1e-300)
+        tol = max(base, 4.0 * spread, 4.0 * A0.extra, 1e-300)
         cond = tol / base if base > 0 else INF
     return {"value": v0, "path": "/".join(A0.path), "margin": min(A0.margins) if A0.margins else 1.0,
-            "tol": tol, "cond": cond, "near": near, "aux": aux}
+            "tol": tol, "cond": cond, "near": near, "aux": aux, "sqrt_boundary": A0.force_near}
 
 
 # ------------------------------------------------------------------------------------------------
@@ -561,6 +588,9 @@ def gen_hs(rng, n, kind="hs"):
     out = []
     for i in range(n):
         radius = rng.choice([0.5, 0.1, 1.0, 0.37])
+        if i % 3 == 2:
+            # the contact equation is scale invariant: very small and very large spheres (all lengths scale with them)
+            radius *= 10.0 ** rng.choice([-10, -8, -7, -5, -3, 3, 6])
         dia = 2 * radius
         if kind == "hd":
             mn = dia
@@ -864,13 +894,19 @@ def mirror_fn(op):
     k = op["k"]
     if k == "ip_disp":
         x, q = xq(sepv(op), op["dir"])
-        return lambda A: m_ip_disp(A, fl(op, "p"), fl(op, "pref"), fl(op, "c1"), fl(op, "c2"), fl(op, "dE"), x,
-                                   float(q)) / fl(op, "speed")
+        def f_ip(A):
+            A.out_scale = 1.0 / fl(op, "speed")
+            return m_ip_disp(A, fl(op, "p"), fl(op, "pref"), fl(op, "c1"), fl(op, "c2"), fl(op, "dE"), x,
+                             float(q)) / fl(op, "speed")
+        return f_ip
     if k in ("lj_disp", "dep_disp"):
         x, q = xq(sepv(op), op["dir"])
         m = MH("lj", fl(op, "k_"), fl(op, "sigma")) if k == "lj_disp" else MH("dep", fl(op, "k_"), fl(op, "r0"),
                                                                                  int(op["p"]))
-        return lambda A: m_mh_disp(A, m, fl(op, "dE"), x, float(q)) / fl(op, "speed")
+        def f_mh(A):
+            A.out_scale = 1.0 / fl(op, "speed")
+            return m_mh_disp(A, m, fl(op, "dE"), x, float(q)) / fl(op, "speed")
+        return f_mh
     if k == "hs_disp":
         r = fl(op, "radius")
         return lambda A: m_hs(A, 4.0 * r * r, sepv(op, "vel"), sepv(op))
@@ -889,6 +925,7 @@ def mirror_fn(op):
         kc = fl(op, "pref") * fl(op, "c1") * fl(op, "c2")
 
         def g(A):
+            A.out_scale = 1.0 / fl(op, "speed")
             v, laps = m_ipc_disp(A, kc, fl(op, "dE"), x, float(q), fl(op, "L"))
             return v / fl(op, "speed"), laps
         return g
@@ -1283,23 +1320,28 @@ def oracle_exact(c, res):
             d2 = 4 * Fr(fl(op, "radius")) ** 2
             if ss < d2 * (1 - Fr(1, 10 ** 12)):
                 return None   # overlapping start: outside the property's domain
-            tmin = vs / vv if vs > 0 else Fr(0)
-            m = dist2(tmin)
+            # absolute accuracy of a squared distance evaluated in floats (2^-38 level, cf. the case tolerances)
+            tol2 = Fr(2) ** -38 * (ss + d2 + vs * vs / vv)
+            tmin = vs / vv if vs > 0 else Fr(0)          # time of closest approach on t >= 0
+            if res != res:
+                return "hard sphere displacement returned nan"
             if res == INF:
-                return None if m >= d2 * (1 - Fr(1, 2 ** 40)) else "returns inf although the spheres collide"
+                # never closer than the diameter, up to the tolerance (grazing: hit or miss undecidable in floats)
+                return None if dist2(tmin) >= d2 - tol2 else "returns inf although the spheres collide"
             t = Fr(res)
-            delta = Fr(2) ** -38 * (abs(t) + Fr(float(math.sqrt(d2 / vv))))
-            # grazing contacts: the contact time is ill-conditioned like sqrt(discriminant)
-            D = vs * vs - vv * (ss - d2)
-            if D > 0:
-                delta = max(delta, Fr(2) ** -38 * abs(vs) / vv * Fr(float(abs(vs) / math.sqrt(float(D)))) )
-            if t < -delta:
+            dt = Fr(2) ** -38 * (abs(t) + Fr(float(math.sqrt(d2 / vv))))
+            if t < -dt:
                 return "negative contact time %r" % res
-            lo, hi = max(t - delta, Fr(0)), t + delta
-            if not (dist2(hi) <= d2 and (dist2(lo) >= d2 or lo == 0)):
-                return "returned time %r is not the first contact time" % res
-            if lo > 0 and tmin < lo and vs > 0:
-                return "contact time %r lies behind the closest approach" % res
+            # at the returned time the spheres touch, up to the tolerance propagated through the slope of dist^2
+            slope = 2 * abs(t * vv - vs)
+            if abs(dist2(max(t, Fr(0))) - d2) > tol2 + slope * dt:
+                return "at the returned time %r the spheres do not touch: |s - v t|^2 - d^2 = %.3e" % (
+                    res, float(dist2(max(t, Fr(0))) - d2))
+            # first contact: if the returned time lies behind the closest approach, the closest approach itself must
+            # not be an overlap (then the earlier root was missed); a grazing contact passes within the tolerance
+            if tmin < t - dt and dist2(tmin) < d2 - tol2:
+                return "returned time %r is not the first contact time (the spheres overlap at the closest " \
+                       "approach t = %.17g before it)" % (res, float(tmin))
             return None
         mn2, mx2 = Fr(fl(op, "mn")) ** 2, Fr(fl(op, "mx")) ** 2
         if not (mn2 * (1 - Fr(1, 10 ** 12)) <= ss <= mx2 * (1 + Fr(1, 10 ** 12))):
@@ -1712,6 +1754,10 @@ def run(ctx, cases_override=None):
                               "above_2^20": sum(1 for t in conds if t > 2 ** 20)},
         "cases_proved_in_coq": nproved,
         "near_branch_boundary_skipped": len(near_skipped),
+        "sqrt_boundary_cases": {"generated (radicand within its rounding error of zero: grazing contact / tangent "
+                                "path)": sum(1 for i in idx if evs[i].get("sqrt_boundary")),
+                                "of these skipped (unproved in Coq)": sum(1 for i in near_skipped
+                                                                          if evs[i].get("sqrt_boundary"))},
         "model_vs_impl_mismatches": len(mism),
         "not_compared": skipped,
         "oracle_failures": len(viol),
